@@ -100,7 +100,7 @@ pub fn case(tape: &[u32]) -> CaseOutcome {
         };
         let before = model.clone();
         let run_model = model_run(&program.gen.prog, &tree, &index, &source, &globals, model.clone());
-        let flag = CountingFlag::new(None);
+        let flag = CountingFlag::with_cap(run_model.poll_cap());
         let outcome = execute_into(&file, &mut graph, &tree, &index, &source, &globals, &ExecOpts { lazy, debug: None }, &flag);
         report.evaluations += 1;
         history.push(json!({"call": call, "mode": mode, "dsl": dsl, "globals": globals_json(&globals)}));
